@@ -73,6 +73,20 @@ Definition frozen_allows (v mode : N) (prog : list N) (pc : nat) : bool :=
   | Some s => frozen_fields_ok v mode s (os_imms s) prog (S (if N.eqb (os_sub s) 0 then pc else S pc))
   end.
 
+(* ... and from the repository's second source: langspec_v<K>.json documents the opcode for
+   version K = max(v,1) with a mode set containing the current mode (versions without a langspec
+   file, i.e. the unreleased LogicVersion, are not constrained by it) *)
+Definition doc_allows (v mode : N) (prog : list N) (pc : nat) : bool :=
+  let opcode := byte_at prog pc in
+  let sub := if is_prefix_src opcode then byte_at prog (S pc) else 0%N in
+  match find (fun kv : N * list (N * N * string * N * N) => N.eqb (fst kv) (N.max v 1)) langspec_ops with
+  | None => true
+  | Some (_, ops) =>
+      existsb (fun o : N * N * string * N * N =>
+                 let '(opc, sb, _, _, modes) := o in
+                 N.eqb opc opcode && N.eqb sb sub && negb (N.eqb (N.land modes mode) 0)) ops
+  end.
+
 (* ------------------------------------------------------------------ parsing *)
 Definition parse_sval (t : term) : option sval :=
   match t with
@@ -108,7 +122,7 @@ Definition check_x (v mode lsv : N) (prog : list N) (tpc : nat) (ckbudget : Z) (
   let allowed := src_allows v mode prog tpc in
   let reached := match tstack with Some _ => N.eqb tcls 0 | None => false end in
   (* the property, on the implementation's observation *)
-  let spec_ok := implb reached (allowed && frozen_allows v mode prog tpc)
+  let spec_ok := implb reached (allowed && frozen_allows v mode prog tpc && doc_allows v mode prog tpc)
                  && implb (touched && reached) (negb (src_allows v mode_sig prog tpc)) in
   let mpre := match tstack with Some stk => pre_class v mode prog tpc stk rem | None => 0%N end in
   let corr_eval :=
